@@ -10,6 +10,8 @@ import (
 //  view-mismatch         after an update at index k the materialized view differs from what the direct
 //                        query returned at k (recorded after every commit)
 //  index-regression      the materializer's index decreased (other than by a reset)
+//  duplicate-event       an index was delivered twice, other than the batch at the snapshot's own index once,
+//                        with the committed content, right after that snapshot (Subscription.Next re-delivers it)
 //  skipped-event / unexpected-event
 //                        after quiescence the indexes delivered after the snapshot are not exactly the
 //                        commits that touched the subject after the snapshot index
@@ -77,6 +79,8 @@ type oClient struct {
 	taint      string
 	view       []KV
 	subStep    int
+	eosHere    bool // this subscription delivered its own snapshot
+	dupSeen    bool // the batch at the snapshot's own index has been delivered once more
 }
 
 func touches(ts TS, e Ev) bool {
@@ -304,6 +308,7 @@ func oracle(steps []Step, drained bool) []Failure {
 			c.subscribed, c.closed, c.mustClose = true, false, ""
 			c.reqIdx, c.first, c.snapPhase = st.ReqIdx, true, st.ReqIdx == 0
 			c.delivered, c.haveStart, c.blocked, c.subStep = nil, false, false, i
+			c.eosHere, c.dupSeen = false, false
 		case "unsub":
 			if c := clients[st.C]; c != nil {
 				c.subscribed = false
@@ -370,6 +375,7 @@ func oracle(steps []Step, drained bool) []Failure {
 				}
 				c.snapPhase = false
 				c.snapIdx, c.start, c.haveStart, c.epoch = st.OIdx, st.OIdx, true, epoch
+				c.eosHere = true
 				c.taint = ""
 				if st.CIdx != st.OIdx {
 					fail(st.C, "index-not-set", "unknown", fmt.Sprintf("materializer index %d after EndOfSnapshot %d", st.CIdx, st.OIdx))
@@ -413,6 +419,25 @@ func oracle(steps []Step, drained bool) []Failure {
 				if st.CIdx < c.lastIdx {
 					fail(st.C, "index-regression", cause,
 						fmt.Sprintf("event@%d delivered after index %d (snapshot@%d)", st.OIdx, c.lastIdx, c.snapIdx))
+				}
+				if st.CIdx == c.lastIdx {
+					// the same index twice: only the batch at the snapshot's own index, once, right after
+					// the snapshot of this subscription, and with the content of the committed batch
+					ok := c.eosHere && !c.dupSeen && st.OIdx == c.snapIdx
+					if b := batchAt(st.OIdx); ok && b != nil && b.epoch == epoch {
+						var want []Ev
+						for _, e := range b.evs {
+							if touches(c.ts, e) {
+								want = append(want, e)
+							}
+						}
+						ok = reflect.DeepEqual(want, st.OEvs)
+					}
+					if !ok {
+						fail(st.C, "duplicate-event", cause,
+							fmt.Sprintf("event@%d delivered at index %d again (snapshot@%d)", st.OIdx, c.lastIdx, c.snapIdx))
+					}
+					c.dupSeen = true
 				}
 				c.lastIdx = st.CIdx
 				if want := contentAt(c.ts, st.CIdx); !sameRows(want, st.View) {
